@@ -8,7 +8,7 @@ from checks import common as cm
 from checks import phys
 
 ID = 'C05'
-BUDGET = {'quick': 96, 'thorough': 6000}
+BUDGET = {'quick': 80, 'thorough': 6000}
 DET_K = 2
 WALL = {'quick': 150, 'thorough': 2400}
 CHUNK = 2
